@@ -698,6 +698,57 @@ var scenarios = []scenario{
 			h.upload(900, 1000, "-")
 		})
 	}},
+	{"pubrecord", func(rd *runner) {
+		// A commit at N whose Lock.Replace on the mirror register fails (not applied / applied), then
+		// a commit at a smaller size M (fresh signature at the recorded size, an older ticket), in the
+		// same process or after a restart: nothing of N may have become public unless it is recorded.
+		for _, restart := range []bool{false, true} {
+			restart := restart
+			rd.run("y", 1300, func(h *hist) { // fresh signature at the recorded size
+				h.pending(300)
+				h.upload(0, 300, "-")
+				h.pending(600)
+				a, _ := h.begin(300, 600, "-")
+				h.pkgs(a)
+				h.evCommitTarget(a, "lockreplace", fFail)
+				if restart {
+					h.evRestart()
+				}
+				h.upload(300, 300, "-")
+				h.upload(300, 600, "-")
+			})
+			rd.run("y", 1300, func(h *hist) { // an older ticket
+				h.pending(300)
+				t := h.probe()
+				h.pending(600)
+				a, _ := h.begin(0, 600, "-")
+				h.pkgs(a)
+				h.evCommitTarget(a, "lockreplace", fFail)
+				if restart {
+					h.evRestart()
+					h.pending(700)
+					h.upload(0, 300, "-") // no ticket survives a restart: the pending checkpoint is 700
+					h.upload(0, 700, "-")
+				} else {
+					h.upload(300, 300, t)
+					h.upload(600, 600, "-")
+				}
+			})
+			rd.run("y", 1300, func(h *hist) { // the Replace is applied but answers with an error: recorded, not published
+				h.pending(300)
+				h.upload(0, 300, "-")
+				h.pending(600)
+				a, _ := h.begin(300, 600, "-")
+				h.pkgs(a)
+				h.evCommitTarget(a, "lockreplace", fFailApplied)
+				if restart {
+					h.evRestart()
+				}
+				h.upload(300, 300, "-") // behind the recorded checkpoint: 409
+				h.upload(600, 600, "-")
+			})
+		}
+	}},
 	{"retry", func(rd *runner) { rd.enumerate("p", 1000, "retry", baseScript) }},
 	{"retry2", func(rd *runner) { rd.enumerate("p", 1000, "retryalt", raceScript) }},
 	{"retryolder", func(rd *runner) { rd.enumerate("v", 1100, "retryall", olderScript) }},
